@@ -487,6 +487,26 @@ def total(traffic, acc):
 # the traffic check
 # --------------------------------------------------------------------------
 
+# One directory per process, cleaned between cases: consecutive cases write their traces under the SAME
+# paths (a kernel re-run with another loop order under one Metrics prefix does that), so a result must be a
+# function of the traces given to this call, not of what an earlier call read from a file of that name
+_ROOTS = {}
+
+
+def _clean(root):
+    for x in os.listdir(root):
+        q = os.path.join(root, x)
+        shutil.rmtree(q, ignore_errors=True) if os.path.isdir(q) else os.remove(q)
+
+
+def _case_root():
+    pid = os.getpid()
+    if pid not in _ROOTS or not os.path.isdir(_ROOTS[pid]):
+        _ROOTS[pid] = tempfile.mkdtemp(prefix="c17-")
+    _clean(_ROOTS[pid])
+    return _ROOTS[pid]
+
+
 class _Excluded(Exception):
     """The case fell into the sub-class of an open finding; it was counted."""
 
@@ -515,7 +535,7 @@ def _check_traffic(case, rec):
     ref = ref_buffet if model == "buffet" else ref_cache
     line = case["line_sz"]
     cap = case["capacity"]
-    root = tempfile.mkdtemp(prefix="c17-")
+    root = _case_root()
     try:
         def candidates(capacity):
             """reference results: the stated accounting, and -- only to recognise
@@ -553,7 +573,9 @@ def _check_traffic(case, rec):
             (neither the cache's write-back accounting nor the overflow counters are part of it)"""
             if model == "buffet":
                 return traffic
-            return {t: {k: v for k, v in d.items() if k != "write"} for t, d in traffic.items()}
+            # the cache clause fixes the NUMBER of fills; which of two equally late lines of different bindings
+            # goes first (and so which tensor is charged) is a tie the statement leaves open
+            return {"<all tensors>": {"read": sum(d.get("read", 0) for d in traffic.values())}}
 
         def compare(got, capacity):
             """Exact comparison with the reference at one capacity.  Returns the
@@ -683,7 +705,7 @@ def _check_traffic(case, rec):
             nt = rec.cls("capacity-pressure", info["pressure"] and nobj * line > cap) and has_write and reused
         rec.nontrivial(bool(nt))
     finally:
-        shutil.rmtree(root, ignore_errors=True)
+        _clean(root)
 
 
 # --------------------------------------------------------------------------
@@ -694,10 +716,11 @@ def _check_traffic(case, rec):
 def traffic_cases(draw, model=None):
     model = model or draw(st.sampled_from(["buffet", "cache", "cache"]))
     nl = draw(st.sampled_from([1, 2, 2, 2, 3, 3]))
-    order = LOOP[:nl]
+    # (the loop ranks in a drawn order: the same file name may carry another header in the next case)
+    order = draw(st.sampled_from([["M", "K", "N"], ["M", "K", "N"], ["K", "N", "M"], ["N", "M", "K"], ["K", "M", "N"]]))[:nl]
     nt = draw(st.sampled_from([1, 1, 2]))
     # (multi-digit stamps and positions: rows are compared as numbers, not as text)
-    wide = draw(st.integers(0, 3)) == 0
+    wide = draw(st.integers(0, 5)) == 0
     tensors = []
     cands = []
     for ti in range(nt):
@@ -706,7 +729,7 @@ def traffic_cases(draw, model=None):
         lr = [r for j, r in enumerate(order) if (bits >> j) & 1]
         alias = draw(st.integers(0, 4)) == 0
         ranks = [[r, r + name.lower() if alias else r] for r in lr]
-        shape = [draw(st.integers(1, 12 if wide else 5)) for _ in lr]
+        shape = [draw(st.sampled_from([12, 12, 11, 3, 5])) if wide else draw(st.integers(1, 5)) for _ in lr]
         fmt = []
         for r in ranks:
             layout = draw(st.sampled_from(["contiguous", "contiguous", "contiguous", "interleaved"]))
@@ -736,7 +759,8 @@ def traffic_cases(draw, model=None):
         for j in range(len(stamp) - 1):
             k = (j, stamp[:j + 1])
             if k not in upper:
-                upper[k] = draw(st.sampled_from([0, 0, 1, 1, 2]))
+                # (wide: coordinates whose digits run together with those of the next component: 1|12 and 11|2)
+                upper[k] = draw(st.sampled_from([1, 11, 1, 11, 2, 12] if wide else [0, 0, 1, 1, 2]))
             out.append(upper[k])
         out.append(draw(st.integers(0, 4)))
         return out
@@ -756,8 +780,12 @@ def traffic_cases(draw, model=None):
             npos = draw(st.sampled_from([1, 2, 2, 3, shp[bi] + 2]))
             pos0 = draw(st.integers(0, shp[bi] + 2 - min(npos, shp[bi] + 2)))
             read = []
+            wpos = [q for q in (1, 2, 11, 12, 21) if q <= shp[bi] + 1]
             for s in stamps:
-                read.append(list(s) + coords_for(s) + [draw(st.integers(pos0, min(pos0 + npos, shp[bi] + 2)))])
+                if wide and wpos and draw(st.booleans()):
+                    read.append(list(s) + coords_for(s) + [draw(st.sampled_from(wpos))])
+                else:
+                    read.append(list(s) + coords_for(s) + [draw(st.integers(pos0, min(pos0 + npos, shp[bi] + 2)))])
             kind = draw(st.sampled_from(["r", "r", "rw", "rw", "rw", "w"]))
             write = None
             if kind != "r":
@@ -790,7 +818,30 @@ def traffic_cases(draw, model=None):
             "line_sz": line_sz, "capacity": capacity, "capacity2": capacity2, "rot": draw(st.integers(1, 3))}
 
 
-PARTS = [Part("traffic", traffic_cases(), check_traffic, n_quick=1200, n_thorough=4000)]
+def digit_cases(tier):
+    """hand-made traces in which two DIFFERENT lines have coordinates whose digits run together to the same
+    text: (K=1, position 12) and (K=11, position 2), (K=1, position 11) and (K=11, position 1), ... -- lines
+    are identified by their coordinates as numbers, component by component"""
+    fmt = {"layout": "contiguous", "cbits": 8, "pbits": 8}
+    tens = [{"name": "A", "ranks": [["K", "K"], ["N", "N"]], "shape": [12, 22], "fmt": [dict(fmt), dict(fmt)]}]
+    for x, y in (((1, 12), (11, 2)), ((1, 11), (11, 1)), ((2, 12), (21, 2)), ((11, 2), (1, 12))):
+        for model_, rows in (
+                ("buffet", [[0, 0, 0, 0, x[0], 7, x[1]], [0, 1, 0, 0, y[0], 7, y[1]], [1, 0, 0, 1, x[0], 7, x[1]]]),
+                ("cache", [[0, 0, 0, 0, x[0], 7, x[1]], [0, 1, 0, 0, 5, 7, 5], [0, 2, 0, 0, y[0], 7, y[1]],
+                           [0, 3, 0, 0, 5, 7, 5]])):
+            for cap in ((10 ** 6,) if model_ == "buffet" else (8, 16)):
+                b = {"tensor": "A", "rank": "N", "type": "payload", "trace": 0}
+                if model_ == "buffet":
+                    b["evict"] = "M"
+                yield {"model": model_, "order": ["M", "K", "N"], "tensors": tens, "bindings": [b],
+                       "traces": [{"depth": 3, "read": rows, "write": None}], "line_sz": 8, "capacity": cap,
+                       "capacity2": 10 ** 6, "rot": 1}
+
+
+PARTS = [Part("traffic", traffic_cases(), check_traffic, n_quick=1200, n_thorough=4000),
+         Part("digits", None, check_traffic, n_quick=0, n_thorough=0, enumerate=digit_cases,
+              exhaustive_note="12 hand-made traces whose distinct lines have coordinates that read the same when their "
+                              "digits are run together (1|12 and 11|2 ...), buffet and cache")]
 
 
 # --------------------------------------------------------------------------
